@@ -210,6 +210,32 @@ def run(ctx, config='rel-all'):
             ctx.ok('O4', 'amortized_new_size == max(2*cap, used + extra) with a checked sum', show(want)[:80])
         else:
             ctx.violation('O4', 'RawVec::amortized_new_size', 'formula', 'amortized growth is %s (checked sum: %s); expected max(2*cap, used_cap + needed_extra)' % ([show(t)[:100] for t, _ in pays][:2], checked), b.get('span'))
+    # ---- O5 every growing entry point of Vec / String reaches the raw buffer with the amortized (doubling) strategy; only
+    # the *_exact flavours (and shrink) use the exact one.  A growing entry that reserves exactly re-allocates on every call:
+    # the number of reallocations becomes linear in the elements stored.
+    if config != 'rel-default':
+        AMORTIZED = [('vec::Vec', 'reserve'), ('vec::Vec', 'try_reserve'), ('vec::Vec', 'push'), ('vec::Vec', 'insert'), ('vec::Vec', 'append_elements'), ('vec::Vec', 'extend_from_slice_copy'),
+                     ('vec::Vec', 'extend_with'), ('string::String', 'reserve'), ('string::String', 'push'), ('string::String', 'push_str'), ('string::String', 'insert_bytes')]
+        EXACT = [('vec::Vec', 'reserve_exact'), ('vec::Vec', 'try_reserve_exact'), ('string::String', 'reserve_exact')]
+        n5 = 0
+        for (adt, name), want in [(k, 'Amortized') for k in AMORTIZED] + [(k, 'Exact') for k in EXACT]:
+            bs = [x for x in db.fn_bodies() if x['kind'] == 'assoc_fn' and x['meta'].get('name') == name and (x['meta'].get('impl_adt') or '').endswith(adt) and not x['meta'].get('impl_trait')]
+            if not bs:
+                ctx.anchor_missing('O5', '%s::%s' % (adt, name))
+                continue
+            J, r = arena.run_fn(ctx, bs[0]['id'], config)
+            strat = set()
+            for e in r.events:
+                if e.kind == 'call' and e.callee and e.callee.endswith('::reserve_internal') and len(e.args) >= 5:
+                    a = e.args[4]
+                    strat.add(a[2] if a[0] == 'agg' else show(a)[:30])
+            n5 += 1
+            fn = '%s::%s' % (adt.split('::')[-1], name)
+            if strat == {want}:
+                ctx.ok('O5', '%s reaches RawVec::reserve_internal with ReserveStrategy::%s' % (fn, want), 'constant strategy argument along the inlined call chain')
+            else:
+                ctx.violation('O5', fn, 'strategy', '%s reaches the raw buffer with strategy %s, expected %s (growth through this entry point would %s)' % (fn, sorted(strat) or 'none', want, 'not be geometric' if want == 'Amortized' else 'over-allocate'), bs[0].get('span'))
+        ctx.floor('O5', n5, 14, 'growing entry points of Vec / String checked for their growth strategy')
     # ---- R5 capacities
     if config != 'rel-default':
         for path, nav in (("collections::raw_vec::RawVec::<'a, T>::with_capacity_in", ()), ("collections::vec::Vec::<'bump, T>::with_capacity_in", ('buf',)), ("collections::string::String::<'bump>::with_capacity_in", ('vec', 'buf'))):
